@@ -185,44 +185,63 @@ impl<K: CacheKey + 'static> MemoryCache<K> {
         self.cleanup_handle = Some(handle);
     }
 
-    /// Check if eviction is needed based on configured limits
-    fn needs_eviction(&self) -> bool {
-        let current_entries = self.entry_count.load(Ordering::Relaxed);
-        let current_memory = self.memory_usage.load(Ordering::Relaxed);
+    /// Bytes that have to be released before `incoming_bytes` more can be stored
+    /// within `max_memory_bytes`: 0 if they fit, otherwise enough to get down to
+    /// 90% of the byte capacity (same head-room as for the entry limit)
+    fn bytes_to_free(&self, incoming_bytes: usize) -> u64 {
+        let Some(max) = self.config.max_memory_bytes else {
+            return 0;
+        };
+        let max = max as u64;
+        let needed = self
+            .memory_usage
+            .load(Ordering::Relaxed)
+            .saturating_add(incoming_bytes as u64);
 
-        current_entries >= self.config.max_entries
-            || self
-                .config
-                .max_memory_bytes
-                .is_some_and(|max| current_memory >= max as u64)
+        if needed <= max {
+            0
+        } else {
+            needed - (max / 10) * 9
+        }
     }
 
-    /// Perform eviction based on configured policy
-    fn perform_eviction(&self) {
-        if !self.needs_eviction() {
+    /// Check if eviction is needed before `incoming_bytes` more bytes are stored
+    fn needs_eviction(&self, incoming_bytes: usize) -> bool {
+        let current_entries = self.entry_count.load(Ordering::Relaxed);
+
+        current_entries >= self.config.max_entries || self.bytes_to_free(incoming_bytes) > 0
+    }
+
+    /// Perform eviction based on configured policy so that one more entry of
+    /// `incoming_bytes` bytes fits within both the entry and the byte limit
+    fn perform_eviction(&self, incoming_bytes: usize) {
+        if !self.needs_eviction(incoming_bytes) {
             return;
         }
 
         let target_entries = (self.config.max_entries * 90) / 100; // Evict to 90% capacity
         let current_entries = self.entry_count.load(Ordering::Relaxed);
 
-        if current_entries <= target_entries {
+        // Entries to evict for the entry limit and bytes to release for the byte
+        // limit; eviction goes on until both are satisfied
+        let evict_count = current_entries.saturating_sub(target_entries);
+        let evict_bytes = self.bytes_to_free(incoming_bytes);
+
+        if evict_count == 0 && evict_bytes == 0 {
             return;
         }
 
-        let evict_count = current_entries - target_entries;
-
         match &self.config.eviction_policy {
-            crate::traits::EvictionPolicy::Lru => self.evict_lru(evict_count),
-            crate::traits::EvictionPolicy::Lfu => self.evict_lfu(evict_count),
-            crate::traits::EvictionPolicy::Fifo => self.evict_fifo(evict_count),
-            crate::traits::EvictionPolicy::Random => self.evict_random(evict_count),
+            crate::traits::EvictionPolicy::Lru => self.evict_lru(evict_count, evict_bytes),
+            crate::traits::EvictionPolicy::Lfu => self.evict_lfu(evict_count, evict_bytes),
+            crate::traits::EvictionPolicy::Fifo => self.evict_fifo(evict_count, evict_bytes),
+            crate::traits::EvictionPolicy::Random => self.evict_random(evict_count, evict_bytes),
             crate::traits::EvictionPolicy::Ttl => self.evict_expired(),
         }
     }
 
     /// Evict entries using LRU policy
-    fn evict_lru(&self, count: usize) {
+    fn evict_lru(&self, count: usize, min_bytes: u64) {
         let mut candidates: Vec<(K, u64)> = self
             .storage
             .iter()
@@ -232,9 +251,14 @@ impl<K: CacheKey + 'static> MemoryCache<K> {
         // Sort by last accessed time (oldest first)
         candidates.sort_by_key(|(_, last_accessed)| *last_accessed);
 
-        let to_evict = candidates.into_iter().take(count);
+        // Evict in policy order until `count` entries and `min_bytes` bytes are gone
+        let mut evicted = 0usize;
+        let mut freed = 0u64;
 
-        for (key, _) in to_evict {
+        for (key, _) in candidates {
+            if evicted >= count && freed >= min_bytes {
+                break;
+            }
             #[cfg(feature = "verif-hooks")]
             crate::verif_hooks::sched_point("memory.evict_lru.before_remove");
             if let Some((_, entry)) = self.storage.remove(&key) {
@@ -242,12 +266,14 @@ impl<K: CacheKey + 'static> MemoryCache<K> {
                 self.memory_usage
                     .fetch_sub(entry.size_bytes as u64, Ordering::Relaxed);
                 self.metrics.record_eviction(entry.size_bytes);
+                evicted += 1;
+                freed += entry.size_bytes as u64;
             }
         }
     }
 
     /// Evict entries using LFU policy
-    fn evict_lfu(&self, count: usize) {
+    fn evict_lfu(&self, count: usize, min_bytes: u64) {
         let mut candidates: Vec<(K, u64)> = self
             .storage
             .iter()
@@ -257,9 +283,14 @@ impl<K: CacheKey + 'static> MemoryCache<K> {
         // Sort by access count (least accessed first)
         candidates.sort_by_key(|(_, access_count)| *access_count);
 
-        let to_evict = candidates.into_iter().take(count);
+        // Evict in policy order until `count` entries and `min_bytes` bytes are gone
+        let mut evicted = 0usize;
+        let mut freed = 0u64;
 
-        for (key, _) in to_evict {
+        for (key, _) in candidates {
+            if evicted >= count && freed >= min_bytes {
+                break;
+            }
             #[cfg(feature = "verif-hooks")]
             crate::verif_hooks::sched_point("memory.evict_lfu.before_remove");
             if let Some((_, entry)) = self.storage.remove(&key) {
@@ -267,12 +298,14 @@ impl<K: CacheKey + 'static> MemoryCache<K> {
                 self.memory_usage
                     .fetch_sub(entry.size_bytes as u64, Ordering::Relaxed);
                 self.metrics.record_eviction(entry.size_bytes);
+                evicted += 1;
+                freed += entry.size_bytes as u64;
             }
         }
     }
 
     /// Evict entries using FIFO policy
-    fn evict_fifo(&self, count: usize) {
+    fn evict_fifo(&self, count: usize, min_bytes: u64) {
         let mut candidates: Vec<(K, Instant)> = self
             .storage
             .iter()
@@ -282,9 +315,14 @@ impl<K: CacheKey + 'static> MemoryCache<K> {
         // Sort by creation time (oldest first)
         candidates.sort_by_key(|(_, created_at)| *created_at);
 
-        let to_evict = candidates.into_iter().take(count);
+        // Evict in policy order until `count` entries and `min_bytes` bytes are gone
+        let mut evicted = 0usize;
+        let mut freed = 0u64;
 
-        for (key, _) in to_evict {
+        for (key, _) in candidates {
+            if evicted >= count && freed >= min_bytes {
+                break;
+            }
             #[cfg(feature = "verif-hooks")]
             crate::verif_hooks::sched_point("memory.evict_fifo.before_remove");
             if let Some((_, entry)) = self.storage.remove(&key) {
@@ -292,12 +330,14 @@ impl<K: CacheKey + 'static> MemoryCache<K> {
                 self.memory_usage
                     .fetch_sub(entry.size_bytes as u64, Ordering::Relaxed);
                 self.metrics.record_eviction(entry.size_bytes);
+                evicted += 1;
+                freed += entry.size_bytes as u64;
             }
         }
     }
 
     /// Evict entries randomly
-    fn evict_random(&self, count: usize) {
+    fn evict_random(&self, count: usize, min_bytes: u64) {
         use rand::{rng, seq::SliceRandom};
 
         let mut keys: Vec<K> = self
@@ -307,9 +347,14 @@ impl<K: CacheKey + 'static> MemoryCache<K> {
             .collect();
         keys.shuffle(&mut rng());
 
-        let to_evict = keys.into_iter().take(count);
+        // Evict in policy order until `count` entries and `min_bytes` bytes are gone
+        let mut evicted = 0usize;
+        let mut freed = 0u64;
 
-        for key in to_evict {
+        for key in keys {
+            if evicted >= count && freed >= min_bytes {
+                break;
+            }
             #[cfg(feature = "verif-hooks")]
             crate::verif_hooks::sched_point("memory.evict_random.before_remove");
             if let Some((_, entry)) = self.storage.remove(&key) {
@@ -317,6 +362,8 @@ impl<K: CacheKey + 'static> MemoryCache<K> {
                 self.memory_usage
                     .fetch_sub(entry.size_bytes as u64, Ordering::Relaxed);
                 self.metrics.record_eviction(entry.size_bytes);
+                evicted += 1;
+                freed += entry.size_bytes as u64;
             }
         }
     }
@@ -424,11 +471,23 @@ impl<K: CacheKey + 'static> AsyncCache<K> for MemoryCache<K> {
         let start_time = Instant::now();
         let size_bytes = value.len();
 
+        // A value larger than the whole byte budget can never be held within
+        // max_memory_bytes: it is not retained, and the entry it would have
+        // replaced is dropped so that no stale value is served for the key
+        if self
+            .config
+            .max_memory_bytes
+            .is_some_and(|max| size_bytes > max)
+        {
+            self.remove(&key).await?;
+            return Ok(());
+        }
+
         // Check capacity and evict if necessary
         #[cfg(feature = "verif-hooks")]
         crate::verif_hooks::sched_point("memory.put.before_evict_check");
-        if self.needs_eviction() {
-            self.perform_eviction();
+        if self.needs_eviction(size_bytes) {
+            self.perform_eviction(size_bytes);
         }
 
         let entry = Arc::new(MemoryCacheEntryInner::new(value, size_bytes, Some(ttl)));
